@@ -263,6 +263,47 @@ def c04_groups(tier, tag='C04'):
     return gs
 
 
+BG = 'boot-gates.cpp'
+GATES2 = [('bootsNAND', -1, -1, 1, ['lweSubTo']), ('bootsOR', 1, 1, 1, ['lweAddTo']), ('bootsAND', 1, 1, -1, ['lweAddTo']),
+          ('bootsXOR', 2, 2, 2, ['lweAddMulTo']), ('bootsXNOR', -2, -2, -2, ['lweSubMulTo']), ('bootsNOR', -1, -1, -1, ['lweSubTo']),
+          ('bootsANDNY', -1, 1, -1, ['lweSubTo', 'lweAddTo']), ('bootsANDYN', 1, -1, -1, ['lweAddTo', 'lweSubTo']),
+          ('bootsORNY', -1, 1, 1, ['lweSubTo', 'lweAddTo']), ('bootsORYN', 1, -1, 1, ['lweAddTo', 'lweSubTo'])]
+ALIAS_NAMES = {0: 'distinct', 1: 'result=ca', 2: 'result=cb', 3: 'ca=cb', 4: 'all-equal'}
+
+
+def gate_groups(tag, tier, aliases=(0, 1, 2, 3, 4)):
+    gs = []
+    for (g, A, B, C, uses) in GATES2:
+        for al in aliases:
+            gs.append(Group('%s.%s.%s' % (tag, g, ALIAS_NAMES[al]), 'c01_gates.c', 'h_gate2', extract=[(BG, g), (NF, 'modSwitchToTorus32')],
+                            replace=['lweNoiselessTrivial'] + uses, timeout=900,
+                            defines={'H_GATE2': None, 'GATE': g, 'GA': '(%d)' % A, 'GB': '(%d)' % B, 'GC': '(%d)' % C, 'ALIAS': al},
+                            instance={'gate': g, 'aliasing': ALIAS_NAMES[al]}, replay=('gate', g)))
+    for al, nm in ((0, 'distinct'), (1, 'result=a'), (2, 'result=b'), (3, 'result=c')):
+        if al in aliases or al == 3:
+            gs.append(Group('%s.bootsMUX.%s' % (tag, nm), 'c01_gates.c', 'h_mux', extract=[(BG, 'bootsMUX'), (NF, 'modSwitchToTorus32')],
+                            replace=['lweNoiselessTrivial', 'lweAddTo', 'lweSubTo'], defines={'H_MUX': None, 'ALIAS': al}, timeout=900,
+                            instance={'gate': 'bootsMUX', 'aliasing': nm}))
+    gs.append(Group(tag + '.bootsMUX.samedim', 'c01_gates.c', 'h_mux', extract=[(BG, 'bootsMUX'), (NF, 'modSwitchToTorus32')],
+                    replace=['lweNoiselessTrivial', 'lweAddTo', 'lweSubTo'], defines={'H_MUX': None, 'ALIAS': 0, 'MUX_SAMEDIM': None}, timeout=900))
+    gs.append(Group(tag + '.NOT_COPY_CONSTANT', 'c01_gates.c', 'h_gate1',
+                    extract=[(BG, 'bootsNOT'), (BG, 'bootsCOPY'), (BG, 'bootsCONSTANT'), (NF, 'modSwitchToTorus32')],
+                    replace=['lweNoiselessTrivial', 'lweNegate', 'lweCopy'], defines={'H_GATE1': None}, timeout=900))
+    return gs
+
+
+def truth_groups(tag):
+    return [Group('%s.truth.%s' % (tag, g), 'c01_gates.c', 'h_truth_' + g, defines={'H_TRUTH': None}, instance={'gate': g})
+            for g in [x[0] for x in GATES2] + ['bootsMUX']]
+
+
+def c01_groups(tier, tag='C01'):
+    gs = gate_groups(tag, tier, aliases=(0,)) + truth_groups(tag)
+    # the contracts of the linear operations the gates are proved against, enforced on their real bodies
+    gs += [g for g in lwe_groups(tag + '.dep', tier) if not g.bounded]
+    return gs
+
+
 PROPS = {
     'C13': {
         'groups': c13_groups,
@@ -324,6 +365,21 @@ PROPS = {
             '"small output noise that does not depend on x": not decided (statistical)',
             'modSwitchFromTorus32 range postcondition for Msize = 2N outside the enumerated grid is assumed at the call site',
             'callees of the orchestration functions are monitor shims that write ghost state only; their own contracts are enforced in the dep.* groups (MulByXai, extraction, trivial sample) or in C09/C12/C14',
+        ],
+        'trusted': [],
+    },
+    'C01': {
+        'groups': c01_groups,
+        'level': 'proof',
+        'explanation': 'Gate layer for every input dimension n (symbolic): the sample each gate hands to the sign bootstrapping is exactly the affine '
+                       'form C + alpha*ca + beta*cb (every mask coordinate and b), one bootstrap with mu = 1/8 into result, temporary released; '
+                       'truth-table lemma over all admissible phases (enc(bit) +- 1/32): that form lies >= 1/16 inside the half-torus selected by the '
+                       "gate's Boolean function; MUX: both pre-bootstrap forms, 1/8 + u1 + u2, one key switch; NOT/COPY/CONSTANT exact.",
+        'assumptions': STD_ASSUME + [
+            'assumed contract of tfhe_bootstrap_FFT / tfhe_bootstrap_woKS_FFT: returns a sample of phase +-mu within 1/32, sign = half-torus of phase(x) when phase(x) is at least 1/16 from 0 and 1/2 (statistical + FFT numerics; its exact skeleton is C04)',
+            'assumed contract of lweKeySwitch for MUX (C08)',
+            '"both parameter sets, every FFT back end, both builds": covered only in that the gate layer is parameter- and back-end-independent code',
+            'phase-level reading of the coordinate-wise affine form: induction on n, not machine-checked (DESIGN 2.3)',
         ],
         'trusted': [],
     },
